@@ -10,6 +10,8 @@ EXPLANATION = (
     "Contracts on the real functions of nextflow/scripts/batchie.py over an abstract file system (pyvc/lib/fs.py: "
     "iteration / plate directories and counts of published files per kind; glob, isdir, makedirs, rmtree, open/json and the "
     "pipeline launch are assumed contracts). PROVED from the bodies, for every directory state and every batch size: "
+    "(0) the loop invariant of the scan also covers the listing Python leaves bound after the loop (it describes the iteration directory scanned LAST, possibly an empty one), so a "
+    "next-step computation that reads it is judged by the postcondition instead of leaving the function undecided. "
     "(1) examine_output_dir...: raises RuntimeError IF AND ONLY IF some plate directory lacks screen_metadata.json or has no "
     "predecessor plate_<j-1>; otherwise returns (0,0,None,None) iff no iteration directory contains a plate directory, else "
     "the successor (batch-size arithmetic) of (I,J) = highest plate of the highest NON-EMPTY iteration directory, with that "
